@@ -117,7 +117,7 @@ def validate_semantics(seed, n):
     inp2 = ("\n".join(",".join(map(str, p)) + "\t" + ";".join(",".join(map(str, h)) for h in hs) for p, hs in items) + "\n").encode()
     rc2, out2, err2 = runner.sh([runner.DRIVER, '--match', BUILD], inp=inp2)
     model = out2.splitlines()
-    res = {'patterns': len(items), 'haystacks': 0, 'full_disagree': [], 'find_disagree': [], 'skipped': 0}
+    res = {'patterns': len(items), 'haystacks': 0, 'full_disagree': [], 'find_disagree': [], 'first_disagree': [], 'skipped': 0}
     if rc != 0 or rc2 != 0 or len(real) != len(items) or len(model) != len(items):
         return {'error': 'semantic validation could not run: %s %s (%d/%d/%d)' % (err[-200:], err2[-200:], len(items), len(real), len(model))}
     for (p, hs), a, b in zip(items, real, model):
@@ -126,7 +126,13 @@ def validate_semantics(seed, n):
         parts = b.split(';')
         for h, fa, fi, mb in zip(hs, a['full'], a['find'], parts):
             res['haystacks'] += 1
-            mfull, mfind = mb.split('/')
+            mfull, mfind, mfirst = (mb.split('/') + ['?'])[:3]
+            # leftmost-FIRST (Engine/Prio.v, Proofs/PrioSound.v): the model predicts the exact span `find` reports
+            if mfirst != '?':
+                res['first_compared'] = res.get('first_compared', 0) + 1
+                want = None if mfirst == '-' else [int(x) for x in mfirst.split(':')]
+                if (fi is None) != (want is None) or (fi is not None and list(fi) != want):
+                    res['first_disagree'].append({'pattern': ''.join(map(chr, p)), 'haystack': h, 'regex': fi, 'model_first': mfirst})
             if fa is not None and (mfull == '1') != fa:
                 res['full_disagree'].append({'pattern': ''.join(map(chr, p)), 'haystack': h, 'regex': fa, 'model': mfull})
             if mfind == '-':
@@ -148,7 +154,7 @@ if __name__ == '__main__':
         print(json.dumps(x, ensure_ascii=True))
     print(len(d), 'disagreements')
     sres = validate_semantics(int(sys.argv[1]) if len(sys.argv) > 1 else 1, int(sys.argv[2]) if len(sys.argv) > 2 else 2000)
-    fd = sres.pop('full_disagree', []); nd = sres.pop('find_disagree', [])
+    fd = sres.pop('full_disagree', []); nd = sres.pop('find_disagree', []) + sres.pop('first_disagree', [])
     print(json.dumps(sres), len(fd), 'full-match disagreements', len(nd), 'find disagreements')
     for x in (fd + nd)[:10]:
         print(json.dumps(x))
